@@ -15,6 +15,27 @@ from .common import Broken, Result
 PP = "Resources/Hexagon/Preprocessor"
 
 
+HISTORY_PY = r"""
+import json, sys
+from rzilcompiler.Preprocessor.Hexagon.PreprocessorHexagon import PreprocessorHexagon as P
+from rzilcompiler.Configuration import Conf, InputFile
+req = json.load(sys.stdin)
+out = {}
+def gen():
+    p = P(Conf.get_path(InputFile.HEXAGON_PP_SHORTCODE_H))
+    try:
+        return p.patch_macros(list(p.cleanup_macros()))
+    except Exception as e:
+        return "EXC " + type(e).__name__
+if not req.get("fresh"):
+    out["first"] = gen()
+    with open(Conf.get_path(InputFile.HEXAGON_PP_PATCHES_MACROS_H), "w") as f:
+        f.write(req["patches2"])
+out["second"] = gen()
+json.dump(out, sys.stdout)
+"""
+
+
 def scratch_copy() -> str:
     """a git-initialised copy of the repository outside /repo and /verif (Conf finds Resources/ through git)"""
     d = tempfile.mkdtemp(prefix="rzil_c20_")
@@ -243,6 +264,37 @@ def run(tier):
                 broken.append(Broken("correspondence", "K5 generated macro sets", str(e)[-800:]))
                 break
         stats["generated_macro_sets"] = nsets
+        # history: two generations in ONE process (a second preprocessor object, the patch file reduced in between) must give what a
+        # fresh process gives for the second set -- patch_macros is a function of the files (model/Pre.v, C20_patch_macros_spec)
+        nh = 2 if tier == "quick" else 12
+        hist_ok = 0
+        for i in range(nh):
+            h, inc, vec, pat = gen_macro_files(rnd)
+            plines = pat.split("\n")
+            defs = [k for k, l in enumerate(plines) if l.startswith("#define")]
+            drop = set(rnd.sample(defs, max(1, len(defs) // 2))) if defs else set()
+            pat2 = "\n".join(l for k, l in enumerate(plines) if k not in drop)
+            for fn, txt in (("macros.h", h), ("macros.inc", inc), ("macros_mmvec.h", vec), ("patches_macros.h", pat)):
+                open(os.path.join(d, PP, fn), "w").write(txt)
+            rc, out = common.sh([common.PY, "-c", HISTORY_PY], cwd=d, env={"PYTHONPATH": d, "PYTHONHASHSEED": "0"}, input=json.dumps({"patches2": pat2}), timeout=600)
+            rc2, out2 = common.sh([common.PY, "-c", HISTORY_PY], cwd=d, env={"PYTHONPATH": d, "PYTHONHASHSEED": "0"}, input=json.dumps({"fresh": True}), timeout=600)
+            open(os.path.join(d, PP, "patches_macros.h"), "w").write(pat)
+            try:
+                r_hist = json.loads(out[out.index("{"):])
+                r_fresh = json.loads(out2[out2.index("{"):])
+            except Exception:
+                broken.append(Broken("correspondence", "K5 macro history harness", (out + out2)[-800:]))
+                break
+            if r_hist.get("second") != r_fresh.get("second"):
+                a_, b_ = r_hist.get("second") or [], r_fresh.get("second") or []
+                diff = next((x + " | " + y for x, y in zip(a_, b_) if x != y), f"lengths {len(a_)} / {len(b_)}") if isinstance(a_, list) and isinstance(b_, list) else str((a_, b_))[:200]
+                fails.append({"what": "patch_macros depends on history: after an earlier generation with another patch file in the same process, the result for the "
+                                      "second patch file differs from what a fresh process produces for it",
+                              "input": {"macros.h": h, "patches_macros.h (first generation)": pat, "patches_macros.h (second generation)": pat2},
+                              "first_difference": diff[:400]})
+            else:
+                hist_ok += 1
+        stats["macro_histories"] = nh
     finally:
         shutil.rmtree(d, ignore_errors=True)
     stats["scratch_s"] = round(time.time() - t1, 1)
